@@ -65,10 +65,72 @@ type hcall struct {
 }
 
 type script struct {
-	entries []string
-	base    []byte // the whole document
-	calls   []hcall
-	buf     *rjson.Buffer // for re-entrant entries
+	entries  []string
+	base     []byte // the whole document
+	calls    []hcall
+	buf      *rjson.Buffer // for re-entrant entries
+	returned error         // the error value the handler returned last (identity is what C09 is about)
+}
+
+var libErrs []error
+
+// libErrors collects the distinct error values the library itself returns (unexpected end, no valid
+// token, invalid array/object/string/number..., max depth, io.EOF, handler offset out of range)
+func libErrors() []error {
+	if libErrs != nil {
+		return libErrs
+	}
+	add := func(err error) {
+		if err == nil {
+			return
+		}
+		for _, e := range libErrs {
+			if e == err {
+				return
+			}
+		}
+		libErrs = append(libErrs, err)
+	}
+	for _, d := range []string{"[", "[1,[2,", "x", "", `{"a"`, `{"a":`, `"abc`, "tru", "nul", "-", "1e", "[1 2]", `{"a" 1}`, strings.Repeat("[", 10001)} {
+		b := []byte(d)
+		_, err := rjson.SkipValue(b, nil)
+		add(err)
+		_, err = rjson.SkipValueFast(b, nil)
+		add(err)
+		_, err = rjson.HandleArrayValues(b, rjson.ArrayValueHandlerFunc(func(d []byte) (int, error) { return 0, nil }), nil)
+		add(err)
+		_, err = rjson.HandleObjectValues(b, rjson.ObjectValueHandlerFunc(func(k, d []byte) (int, error) { return 0, nil }), nil)
+		add(err)
+		_, _, err = rjson.ReadString(b, nil)
+		add(err)
+		_, _, err = rjson.ReadUint64(b)
+		add(err)
+		_, _, err = rjson.ReadInt64(b)
+		add(err)
+		_, _, err = rjson.ReadInt32(b)
+		add(err)
+		_, _, err = rjson.ReadFloat64(b)
+		add(err)
+		_, _, err = rjson.ReadBool(b)
+		add(err)
+		_, err = rjson.ReadNull(b)
+		add(err)
+		_, _, err = rjson.NextToken(b)
+		add(err)
+		_, _, err = rjson.NextTokenType(b)
+		add(err)
+		_, _, err = rjson.ReadValue(b)
+		add(err)
+		_, _, err = rjson.ReadArray(b)
+		add(err)
+		_, _, err = rjson.ReadObject(b)
+		add(err)
+	}
+	_, err := rjson.HandleArrayValues([]byte(`["a"]`), rjson.ArrayValueHandlerFunc(func(d []byte) (int, error) { return 100, nil }), nil)
+	add(err)
+	_, err = rjson.HandleArrayValues([]byte(`["a"]`), rjson.ArrayValueHandlerFunc(func(d []byte) (int, error) { return -1, nil }), nil)
+	add(err)
+	return libErrs
 }
 
 func (s *script) answer(off int, data []byte) (int, error) {
@@ -91,8 +153,18 @@ func (s *script) answer(off int, data []byte) (int, error) {
 		}
 		return p, nil
 	case strings.HasPrefix(e, "e"):
-		v, _ := strconv.ParseInt(e[1:], 10, 64)
-		return int(v), errSentinel
+		// "e<offset>" returns the harness sentinel; "e<offset>@<k>" returns the k-th error value owned
+		// by the library itself (what a handler gets when it delegates to SkipValue, ReadString, ...)
+		num := e[1:]
+		errv := errSentinel
+		if i := strings.IndexByte(num, '@'); i >= 0 {
+			k, _ := strconv.Atoi(num[i+1:])
+			errv = libErrors()[k%len(libErrors())]
+			num = num[:i]
+		}
+		v, _ := strconv.ParseInt(num, 10, 64)
+		s.returned = errv
+		return int(v), errv
 	default:
 		v, err := strconv.ParseInt(e, 10, 64)
 		if err != nil {
@@ -151,9 +223,9 @@ func handlerObs(p int, err error, s *script, obj bool, n int) string {
 			return fmt.Sprintf("ok-out-of-range %d | %s", p, s.callStr(obj))
 		}
 		return fmt.Sprintf("ok %d | %s", p, s.callStr(obj))
-	case err == errSentinel:
+	case s.returned != nil && err == s.returned:
 		return fmt.Sprintf("herr | %s", s.callStr(obj))
-	case errors.Is(err, errSentinel):
+	case s.returned != nil && errors.Is(err, s.returned):
 		return fmt.Sprintf("herr-wrapped | %s", s.callStr(obj))
 	default:
 		return fmt.Sprintf("err # %s", s.callStr(obj))
